@@ -270,6 +270,16 @@ def run_check(mod, tier: str, seed: int) -> int:
         distribution=mod.distribution(cases, obs) if hasattr(mod, 'distribution') else {},
         coq_case_files=res.get('files', 0),
     )
+    if tier == 'thorough' and ok_proof:
+        import subprocess
+        cmd = ['timeout', '900', 'coqchk', '-silent', '-o'] + C.COQ_FLAGS + [f'AiutiProps.{mod.PROPS_MODULE}']
+        pr = subprocess.run(cmd, cwd=C.COQ, stdout=subprocess.PIPE, stderr=subprocess.STDOUT, text=True)
+        txt = pr.stdout
+        i = txt.find('CONTEXT SUMMARY')
+        coverage['coqchk'] = dict(cmd=' '.join(cmd), exit=pr.returncode,
+                                  summary=(txt[i:] if i >= 0 else txt[-1500:])[:3000])
+        if pr.returncode != 0:
+            notes.append('coqchk failed')
     if hasattr(mod, 'extra_coverage'):
         coverage.update(mod.extra_coverage())
     C.write_evidence(P, tier, seed, coverage, getattr(mod, 'ASSUMPTIONS', []),
